@@ -1,5 +1,5 @@
 (* ---- C07 commands ----
-   input  (run):  ((copy fill acc deg readall striphelpers) tmpl steps)
+   input  (run):  ((copy fill acc deg readall striphelpers scrippad) tmpl steps)
                   tmpl  = N (BASE_GRID_TOPOLOGY_ATTRS as imported) | dict
                   step  = (encode_as fmt ds areas_ok)
                   ds    = ((name (dims) dict data) ...)
@@ -41,9 +41,10 @@ let var_of_sx = function
   | _ -> failwith "var_of_sx"
 
 let variant_of_sx = function
-  | L [c; f; a; d; r; h] ->
+  | L [c; f; a; d; r; h; p] ->
       { vr_copy_template = bool_of_sx c; vr_exo_fill = z_of_sx f; vr_exo_accumulate = bool_of_sx a;
-        vr_exo_deg2rad = bool_of_sx d; vr_exo_read_all = bool_of_sx r; vr_strip_helpers = bool_of_sx h }
+        vr_exo_deg2rad = bool_of_sx d; vr_exo_read_all = bool_of_sx r; vr_strip_helpers = bool_of_sx h;
+        vr_scrip_pad = bool_of_sx p }
   | _ -> failwith "variant_of_sx"
 
 let step_of_sx = function
